@@ -340,26 +340,84 @@ func rulesTrieDelete(c *Ctx, r *Report, e *effEngine) {
 		r.undecided("DEL-PRUNE", where, "pruning loop", c.pos(del.Pos()), "delete() is not inside a loop")
 		return
 	}
-	in := partitionFlowFrom(f, del.Block(), isLen, []int64{0, 1, 2, 3})
-	nl := naturalLoop(header)
+	// the pruning loop as an automaton over (loop-carried flags, number of children left after the delete,
+	// opaque conditions): which child counts let the walk go on to another delete?
+	var lenCall *ssa.Call
+	instrs(f, func(in ssa.Instruction) {
+		if cl, ok := in.(*ssa.Call); ok && isLen(cl) && instrDominates(del, cl) {
+			if lenCall == nil {
+				lenCall = cl
+			}
+		}
+	})
+	if lenCall == nil {
+		r.violated("DEL-PRUNE", where, "prune only empty ancestors", c.pos(del.Pos()), "the number of children left after the delete is never looked at: the upward walk does not depend on whether the ancestor still has other members below it")
+		return
+	}
+	// every len() of that map after the delete is the same quantity: preset them all
+	var extra []fsmInput
+	extra = append(extra, fsmInput{lenCall, []int64{0, 1, 2, 3}, "children"})
+	m := buildFSM(c, f, header, nil, extra...)
+	if m.err != "" {
+		r.undecided("DEL-PRUNE", where, "pruning loop", c.pos(del.Pos()), "the pruning loop could not be evaluated: "+m.err)
+		return
+	}
+	lenIdx := -1
+	var stateIdx []int
+	for i, in := range m.inputs {
+		if in.v == ssa.Value(lenCall) {
+			lenIdx = i
+		} else if phi, ok := in.v.(*ssa.Phi); ok && phi.Block() == header {
+			stateIdx = append(stateIdx, i)
+		}
+	}
+	deletes := func(p *fsmPoint) bool {
+		for _, e := range p.events {
+			if strings.HasPrefix(e, "delete(") {
+				return true
+			}
+		}
+		return false
+	}
 	cont := intSet{}
-	for b := range nl {
-		if b == header {
+	nDel := 0
+	for _, p := range m.points {
+		if !deletes(p) {
 			continue
 		}
-		for _, sc := range b.Succs {
-			if sc == header && in[b] != nil {
-				for v := range in[b] {
-					cont[v] = true
+		nDel++
+		if !strings.HasPrefix(p.exit, "next(") {
+			continue
+		}
+		next := map[string]string{}
+		for _, kv := range strings.Split(strings.TrimSuffix(strings.TrimPrefix(p.exit, "next("), ")"), ",") {
+			if i := strings.Index(kv, "="); i > 0 {
+				next[kv[:i]] = kv[i+1:]
+			}
+		}
+		for _, q := range m.points {
+			if !deletes(q) {
+				continue
+			}
+			match := true
+			for _, si := range stateIdx {
+				if want, ok := next[m.inputs[si].name]; ok && want != "?" && want != fmt.Sprint(q.vals[si]) {
+					match = false
 				}
+			}
+			if match {
+				cont[p.vals[lenIdx]] = true
 			}
 		}
 	}
-	// refine: the edge into the latch — use the latch's own in-set (already refined by the branch)
+	if nDel == 0 {
+		r.undecided("DEL-PRUNE", where, "pruning loop", c.pos(del.Pos()), "no point of the loop automaton performs the delete")
+		return
+	}
 	okPrune := len(cont) == 1 && cont[0]
 	r.check(okPrune, "DEL-PRUNE", where, "prune only empty ancestors", c.pos(del.Pos()),
-		"after removing the edge, the walk continues upward exactly when the node has no children left (len == 0)",
-		fmt.Sprintf("the upward walk continues when the node still has %v children: members that do not have the deleted prefix are removed too (want: continue only with 0)", cont.sorted()))
+		fmt.Sprintf("over the loop automaton (%d points: loop-carried flags x children left x opaque conditions), the walk goes on to delete the parent's edge exactly when the node has no children left", len(m.points)),
+		fmt.Sprintf("the upward walk can go on when the node still has %v children: members that do not have the deleted prefix are removed too (want: continue only with 0)", cont.sorted()))
 	// the deleted key is b[i] in stack[i].m
 	keyOK := strings.HasPrefix(sy.expr(del.Call.Args[1]).String(), "load(P1[")
 	r.check(keyOK, "DEL-PRUNE", where, "deleted edge", c.pos(del.Pos()), "the removed edge is labelled with a byte of the argument", "the removed edge is not labelled with b[i]")
